@@ -3,13 +3,13 @@ import re
 from core import Corr, Fail
 from props import waterlib, nitrolib, c02
 
-PROP_FILES = ["Prop_C07"]
+PROP_FILES = ["Prop_C07", "Prop_C07b"]
 # Coq-Interval (used for the numeric bound of the Arrhenius constants at 60 degC) is taken as compiled by coqchk
 COQCHK_ADMIT = ["Interval.Tactic"]
 RULE = c02.RULE
-TRUSTED = c02.TRUSTED + ["residue / dead-root inputs to the pools are taken as given"]
+TRUSTED = c02.TRUSTED + ["dead-root inputs of the crop module to the pools are taken as given (harvest residues are modelled: HarvestModel)"]
 ASSUMPTIONS = ["pool non-negativity is proved under 0 <= kt <= 1 for the daily rate constants (oracle values); observed on every traced day",
-               "tillage mixing and fertiliser/harvest bookkeeping of Nitro are covered by the trace oracle (pool sums), not by a theorem"]
+               "permanent crops: the residue amounts are proved >= 0, not bounded by the crop's N (the code computes them from biomass and N content)"]
 LEVEL_TEXT = ("Coq proof over the reals of the mineralisation bookkeeping identities (pool + counter invariant, both temperature "
               "branches), pool non-negativity under rate constants <= 1, dissolved <= applied fertiliser, non-negative mineral "
               "N after transport, and 'uptake and fixation are credited on the first sub-step only' for any number of "
@@ -20,7 +20,8 @@ TECHNIQUE = "Coq proof (per-layer algebraic identities, lra/nra) + bit-exact ker
 
 ORACLE_KEYS = ("uptake-credit", "uptake-credited-in-later-substep", "mineral-bookkeeping", "organic-pool-negative",
                "dissolved-exceeds-applied", "c1-negative", "state-not-finite", "fixation-credit",
-               "tillage-mixing-not-conservative", "tillage-run-error", "crop-n-credit", "mineral-n-below-profile")
+               "tillage-mixing-not-conservative", "tillage-run-error", "harvest-run-error", "harvest-pool-not-finite-or-negative",
+               "harvest-removes-organic-n", "harvest-residues-exceed-crop-n", "harvest-first-entry-books-residues", "crop-n-credit", "mineral-n-below-profile")
 
 
 def correspond(ctx):
@@ -37,7 +38,7 @@ def oracle(ctx, search):
         fails.append(Fail(key="trace-crash", what="traced run aborted", stderr=terr[-800:]))
     for l in orc + torc:
         if l.startswith(ORACLE_KEYS):
-            fails.append(Fail(key=re.sub(r"(value|before|after|naos|nfos|ums0|ums|dsumm|aufnasum-delta|sum-pe|dPESUM|dAUFNASUM|fast-before|slow-before)=\S+", "", l)[:100].strip(), what=l))
+            fails.append(Fail(key=re.sub(r"(value|before|after|naos|nfos|ums0|ums|dsumm|aufnasum-delta|sum-pe|dPESUM|dAUFNASUM|fast-before|slow-before|gain|crop-n)=\S+", "", l)[:100].strip(), what=l))
     from props import daynlib
     fails += daynlib.oracle_day(ctx, daynlib.C07_KEYS) or []
     return fails
